@@ -306,10 +306,10 @@ Fixpoint symbols (e : expr) : list (string * ty) :=
   end.
 
 (** names the writer can represent: the escaped form is one symbol token that denotes the
-    name, and no theory owns the name *)
+    name, no theory owns the name and it is not reserved for solver use (leading [.] or [@]) *)
 Definition name_ok (n : string) : bool :=
   match symbol_name (escape_id n) with
-  | Some n' => String.eqb n' n && negb (is_theory_name n)
+  | Some n' => String.eqb n' n && negb (is_theory_name n || is_solver_reserved n)
   | None => false
   end.
 
